@@ -101,12 +101,15 @@ DocPreset(S, Ix(_, _, _), f) ==
     [] fn = "addSS"            -> DocSS(S, Ix, f[2], f[3], f[4])
     [] fn = "addHopping8"      -> DocHopping8(S, Ix, f[2], f[3], f[4], f[5], f[6], f[7], f[8])
     [] fn = "addHopping7"      -> DocHopping8(S, Ix, f[2], f[3], f[4], f[5], f[6], f[7], f[7])
+    [] fn = "addHopping8c"     -> \* complex build: t c+_1 c_2 + conj(t) c+_2 c_1, t = (f[4] + i f[5]) / 4
+          << PTerm(<< <<1, Ix(f[2], f[6], f[8])>>, <<0, Ix(f[3], f[7], f[9])>> >>, DocScale * f[4], DocScale * f[5]),
+             PTerm(<< <<1, Ix(f[3], f[7], f[9])>>, <<0, Ix(f[2], f[6], f[8])>> >>, DocScale * f[4], -DocScale * f[5]) >>
     [] fn = "addHopping6"      -> DocHopping6(S, Ix, f[2], f[3], f[4], f[5], f[6])
     [] fn = "addHopping4"      -> DocHopping4(S, Ix, f[2], f[3], f[4])
 
 \* the documented operator of one build call (numerators over 16)
 DocCall(S, Ix(_, _, _), a) ==
-  CASE a[1] = "AddTerm" -> << PTerm(TermMono(a[3], Ix), DocScale * a[3].v, 0) >>
+  CASE a[1] = "AddTerm" -> << PTerm(TermMono(a[3], Ix), DocScale * a[3].v, IF "vi" \in DOMAIN a[3] THEN DocScale * a[3].vi ELSE 0) >>
     [] a[1] = "Factory" -> DocFactory(Ix, a[3], a[4])
     [] a[1] = "Preset"  -> DocPreset(S, Ix, a[3])
 =============================================================================
